@@ -507,7 +507,18 @@ def reload_waits_for_own_token(rl):
         return False, 'wait_for_answer does not wait for the token drawn by this call'
     from mir import agg_stmts
     msg = [s for s in agg_stmts(rl, snd[0].args[1]) if s['rv'].get('variant_name') == 'Ptr']
-    if len(msg) != 1 or deep_path(rl, msg[0]['rv']['ops'][2]) != tk:
+    def leaves(st, depth=0):
+        # the operands of the message, through a private struct that groups them
+        out = []
+        for o in st['rv'].get('ops') or []:
+            from mir import agg_direct
+            sub = agg_direct(rl, o) if o.get('k') in ('copy', 'move') and depth < 2 else None
+            if sub is not None and sub['rv'].get('ops'):
+                out += leaves(sub, depth + 1)
+            else:
+                out.append(o)
+        return out
+    if len(msg) != 1 or not any(deep_path(rl, o) == tk for o in leaves(msg[0])):
         return False, 'the message sent does not carry the token drawn by this call'
     g = [x for x in guards_of(rl, wt[0].bb) if x[3][0] == 'discr']
     mine = [x for x in g if deep_path(rl, x[3][1]) == ['call@bb%d' % snd[0].bb] and guard_variant(rl, x) == 0]
